@@ -70,7 +70,7 @@ theorem failed_enter_rolls_back (φ : Faults) (body : Option Exc) (scramble : Ct
     (hin : φ .dispEnter = some e) :
     let r := block aenter aexit φ body scramble m
     let l := r.1.log.drop m.log.length
-    l.count .groupExit = 1 ∧ l.count .metricsExit = 1 ∧ l.count .dispExit = 0 ∧ r.2.isSome := by
+    l.count .groupExitCaught = 1 ∧ l.count .metricsExit = 1 ∧ l.count .dispExit = 0 ∧ r.2.isSome := by
   unfold block aenter
   simp only [run, runAtom, hin]
   cases h2 : φ .groupExit <;> simp [h2]
@@ -87,6 +87,28 @@ theorem exception_priority (φ : Faults) (body : Option Exc) (scramble : Ctx →
   unfold block aenter aexit
   simp only [run, runAtom, hin]
   cases h2 : φ .groupExit <;> cases h3 : φ .dispExit <;> simp [h2, h3]
+
+/-- C02.exit_reason (feeds C06/C07/C08): once entered, the disposables' `__aexit__` receives the body's outcome and
+the task group's `__aexit__` receives the scope's exit reason – the disposables' cleanup failure **of any class,
+cancellation included**, if there is one, else the body's outcome – so that a failing or cancelled cleanup makes the
+group cancel its remaining members instead of waiting for them. -/
+theorem exit_reason (φ : Faults) (body : Option Exc) (scramble : Ctx → Ctx) (m : M)
+    (hin : φ .dispEnter = none) :
+    let r := (block aenter aexit φ body scramble m).1
+    r.dispSaw = some body ∧
+    r.groupSaw = some (match φ .dispExit with | some d => some d | none => body) := by
+  unfold block aenter aexit
+  simp only [run, runAtom, hin]
+  cases h2 : φ .groupExit <;> cases h3 : φ .dispExit <;> simp [h2, h3]
+
+/-- C02.enter_rollback_reason: when entering the disposables fails (or is cancelled), the group is exited with
+that very failure as its reason. -/
+theorem enter_rollback_reason (φ : Faults) (body : Option Exc) (scramble : Ctx → Ctx) (m : M) (e : Exc)
+    (hin : φ .dispEnter = some e) :
+    (block aenter aexit φ body scramble m).1.groupSaw = some (some e) := by
+  unfold block aenter
+  simp only [run, runAtom, hin]
+  cases h2 : φ .groupExit <;> simp [h2]
 
 /-- the state part, across tasks: a task's state variable is a function of its visible frame stack, so after the
 frames return to what they were the lookups are what they were (`Haiway.Tasks`, every interleaving). -/
@@ -112,6 +134,15 @@ def φbad : Faults := fun a => if a = .dispExit then some (.user 1) else none
 def m0 : M := { ctx := ⟨0, 0, 0⟩, tok := ⟨0, 0, 0⟩, new := ⟨1, 1, 1⟩ }
 
 example : (block aenter aexitFlat φbad none id m0).1.ctx ≠ m0.ctx := by decide
+
+/-- non-vacuity / sensitivity: with `except Exception` in place of `except BaseException` around the disposables'
+exit, a *cancelled* cleanup is not handed to the group as the exit reason (the seeded change C06-m2 / C07-m1). -/
+example :
+    let aexitE : Proc := .tryFinally (.tryExcept false (.atom .dispExit) (.atom .rebindReason))
+      (.tryFinally (.atom .groupExit) (.seq (.atom .metricsExit) (.atom .stateExit)))
+    let φ : Faults := fun a => if a = .dispExit then some .cancel else none
+    (block aenter aexitE φ none id m0).1.groupSaw = some none ∧
+    (block aenter aexit φ none id m0).1.groupSaw = some (some .cancel) := by decide
 example : (block aenter aexit φbad none id m0).1.ctx = m0.ctx ∧
     (block aenter aexit φbad none id m0).2 = some (.user 1) := by decide
 
@@ -119,6 +150,6 @@ example : (block aenter aexit φbad none id m0).1.ctx = m0.ctx ∧
 example :
     let inner : Stmt := .scopeA φbad ⟨5, 5, 5⟩ (.cons (.raise (.user 9)) .nil)
     let prog : Prog := .cons (.scopeS (fun _ => none) ⟨3, 3, 0⟩ (.cons (.updated (fun _ => none) ⟨4, 0, 0⟩ (.cons inner .nil)) .nil)) .nil
-    execProg prog ⟨0, 0, 0⟩ = (⟨0, 0, 0⟩, some (.user 1)) := by decide
+    execProg prog ⟨0, 0, 0⟩ = (⟨0, 0, 0⟩, some (.user 1)) := by decide +kernel
 
 end Haiway.C02
